@@ -4,6 +4,24 @@ use crate::util::*;
 use star_sharks::{Share, Sharks};
 use std::convert::TryFrom;
 
+/// `RngCore` over the harness' SplitMix64 (mirrored in the Lean driver)
+pub struct SmRng(pub Sm);
+impl rand_core::RngCore for SmRng {
+  fn next_u32(&mut self) -> u32 {
+    self.0.next() as u32
+  }
+  fn next_u64(&mut self) -> u64 {
+    self.0.next()
+  }
+  fn fill_bytes(&mut self, d: &mut [u8]) {
+    rand_core::impls::fill_bytes_via_next(self, d)
+  }
+  fn try_fill_bytes(&mut self, d: &mut [u8]) -> Result<(), rand_core::Error> {
+    self.fill_bytes(d);
+    Ok(())
+  }
+}
+
 pub fn share_bytes(s: &Share) -> Vec<u8> {
   Vec::from(s)
 }
@@ -125,15 +143,42 @@ pub fn run(tier: &str, seed: u64) {
       }
     }
   }
-  // recover on hand-made shares (arbitrary points, not on any polynomial)
-  for _ in 0..(if quick(tier) { 30 } else { 500 }) {
+  // thresholds at integer-width boundaries (2^8, 2^16): the RNG is a SplitMix64 stream identified by
+  // its seed (the driver runs the same generator), so no word list has to be transmitted
+  let bounds: &[u32] = if quick(tier) { &[255, 256, 257, 65535, 65536, 65537] } else { &[255, 256, 257, 1023, 1024, 4095, 4096, 65535, 65536, 65537, 65538, 131072, 131073] };
+  for &t in bounds {
+    let sd = g.next();
+    let mut rng = SmRng(Sm(sd));
+    let secret = le24(g.next() as u128, 0).to_vec();
+    let sharks_ = Sharks(t);
+    let mut ev = sharks_.dealer_rng(&secret, &mut rng).unwrap();
+    let shares: Vec<Share> = (0..3).map(|_| ev.next().unwrap()).collect();
+    let hs: Vec<String> = shares.iter().map(|s| hex(&share_bytes(s))).collect();
+    emit(&format!("sharks.dealsm {} {} {} 3", t, hex(&secret), sd), &format!("ok {}", hs.join(",")));
+    stat("sharks.boundary_thresholds");
+  }
+  // recover on hand-made shares (arbitrary points, not on any polynomial). The x-coordinates come
+  // mostly from a small pool of RELATED values (equal modulo 2^64 / 2^128, adjacent, negatives of
+  // each other) so that any dedup / comparison shortcut on a truncated or transformed key shows.
+  let mut pool: Vec<[u8; 24]> = Vec::new();
+  for d in 1..4u128 {
+    pool.push(le24(d, 0));
+    pool.push(le24(d, 1)); // d + 2^128
+    pool.push(le24((1u128 << 64) + d, 0));
+    pool.push(le24((1u128 << 127) + d, 0));
+    pool.push(le24(12451 - d, 1)); // p - d
+    pool.push(le24(d << 64, 0));
+  }
+  for _ in 0..(if quick(tier) { 120 } else { 3000 }) {
     let cnt = g.range(0, 6) as usize;
     let ylen = g.range(0, 3) as usize;
     let mut sel = Vec::new();
     for _ in 0..cnt {
       let mut b = Vec::new();
       let yl = if g.chance(1, 8) { ylen + 1 } else { ylen };
-      for _ in 0..=yl {
+      // x
+      b.extend(if g.chance(2, 3) { g.pick(&pool).to_vec() } else if g.chance(1, 2) { g.pick(&lat).to_vec() } else { le24(g.next() as u128 | ((g.next() as u128) << 64), 0).to_vec() });
+      for _ in 0..yl {
         b.extend(if g.chance(1, 3) { g.pick(&lat).to_vec() } else { le24(g.next() as u128 | ((g.next() as u128) << 64), 0).to_vec() });
       }
       sel.push(Share::try_from(&b[..]).unwrap());
@@ -141,8 +186,11 @@ pub fn run(tier: &str, seed: u64) {
     if cnt > 1 && g.chance(1, 3) {
       sel[1] = sel[0].clone();
     }
-    let t = g.range(0, cnt as u64 + 1) as u32;
+    let distinct = sel.iter().map(|s| share_bytes(s)[..24].to_vec()).collect::<std::collections::BTreeSet<_>>().len();
+    // thresholds around the number of distinct points: exactly-enough is where a wrong dedup shows
+    let t = if g.chance(2, 3) { distinct as u32 } else { g.range(0, cnt as u64 + 1) as u32 };
     let hs: Vec<String> = sel.iter().map(|s| hex(&share_bytes(s))).collect();
+    stat(if distinct < cnt { "sharks.handmade.with_repeats" } else { "sharks.handmade.all_distinct" });
     emit(&format!("sharks.recover {} {}", t, hs.join(",")), &recover_ans(t, &sel));
   }
 }
